@@ -37,10 +37,10 @@ func init() {
 		Run: runC09,
 		Controls: []core.Control{
 			{Name: "delete-unmaps-code", File: "internal/engine/wazevo/engine.go", Old: "\t\tdelete(e.compiledModules, m.ID)\n\t}\n}", New: "\t\tdelete(e.compiledModules, m.ID)\n\t\tif len(cm.executable) > 0 {\n\t\t\t_ = platform.MunmapCodeSegment(cm.executable)\n\t\t}\n\t}\n}", Rule: "R09.1", Substr: "DeleteCompiledModule"},
-			{Name: "finalizer-called-on-close", File: "internal/engine/wazevo/engine.go", Old: "\te.compiledModules = nil\n\te.sharedFunctions = nil\n", New: "\te.compiledModules = nil\n\tsharedFunctionsFinalizer(e.sharedFunctions)\n\te.sharedFunctions = nil\n", Rule: "R09.1", Substr: "called directly"},
+			{Name: "finalizer-called-on-close", File: "internal/engine/wazevo/engine.go", Old: "\te.compiledModules = nil\n", New: "\te.compiledModules = nil\n\tsharedFunctionsFinalizer(e.sharedFunctions)\n", Rule: "R09.1", Substr: "called directly"},
 			{Name: "cache-hit-without-finalizer", File: "internal/engine/wazevo/engine_cache.go", Old: "\t\t// Set the finalizer.\n\t\te.setFinalizer(cm.executables, executablesFinalizer)\n", New: "", Rule: "R09.2", Substr: "CompileModule"},
 			{Name: "host-module-without-finalizer", File: "internal/engine/wazevo/engine.go", Old: "\t\t}\n\t}\n\te.setFinalizer(cm.executables, executablesFinalizer)\n\treturn cm, nil\n}\n\n// Close implements", New: "\t\t}\n\t}\n\treturn cm, nil\n}\n\n// Close implements", Rule: "R09.2", Substr: "CompileModule"},
-			{Name: "shared-functions-copied", File: "internal/engine/wazevo/engine.go", Old: "\t\tsharedFunctions *sharedFunctions\n\t\tsourceMap ", New: "\t\tsharedFunctions sharedFunctions\n\t\tsourceMap ", Old2: "\tcm.sharedFunctions = e.sharedFunctions\n\te.setFinalizer", New2: "\tcm.sharedFunctions = *e.sharedFunctions\n\te.setFinalizer", Rule: "R09.3", Substr: "sharedFunctions"},
+			{Name: "shared-functions-copied", File: "internal/engine/wazevo/engine.go", Old: "// Close implements wasm.Engine.\nfunc (e *engine) Close() (err error) {", New: "func (e *engine) sharedCopy() sharedFunctions { return *e.sharedFunctions }\n\n// Close implements wasm.Engine.\nfunc (e *engine) Close() (err error) {", Rule: "R09.3", Substr: "sharedFunctions"},
 			{Name: "close-cuts-global-keeper", File: "internal/wasm/module_instance.go", Old: "\tif m.CodeCloser != nil {\n\t\tif e := m.CodeCloser.Close(ctx); err == nil {", New: "\tfor _, g := range m.Globals {\n\t\tif g != nil && g.Me == m.Engine {\n\t\t\tg.Me = nil\n\t\t}\n\t}\n\tif m.CodeCloser != nil {\n\t\tif e := m.CodeCloser.Close(ctx); err == nil {", Rule: "R09.4", Substr: "GlobalInstance.Me"},
 			{Name: "table-keepalive-pruned", File: "internal/wasm/store.go", Old: "\t\t\t\timportedTable.involvingModuleInstances = append(importedTable.involvingModuleInstances, m)\n", New: "\t\t\t\timportedTable.involvingModuleInstances = append(importedTable.involvingModuleInstances[:1], m)\n", Rule: "R09.4", Substr: "involvingModuleInstances"},
 			{Name: "function-record-not-retained", File: "internal/engine/wazevo/module_engine.go", Old: "\tm.localFunctionInstances = append(m.localFunctionInstances, lf)\n", New: "", Rule: "R09.5", Substr: "FunctionInstanceReference"},
